@@ -43,6 +43,10 @@ impl WeightedMean {
         // and
         // http://people.ds.cam.ac.uk/fanf2/hermes/doc/antiforgery/stats.pdf.
         self.weight_sum += weight;
+        if self.weight_sum == 0. {
+            // Nothing to average yet, avoid dividing zero by zero.
+            return;
+        }
 
         let prev_avg = self.weighted_avg;
         self.weighted_avg = prev_avg + (weight / self.weight_sum) * (sample - prev_avg);
